@@ -352,3 +352,77 @@ def split_at(data: bytes, cuts):
         prev = c
     res.append(data[prev:])
     return res
+
+
+# ---------------------------------------------------------------- fingerprints (change detectors, not obligations)
+FINGERPRINT_FILE = os.path.join(VERIF, "harness", "fingerprints.json")
+FINGERPRINT_OWNERS = [("fcs", ["C03"]), ("hdlc", ["C01", "C02", "C06", "C16", "C19"]), ("p1IsValid", ["C04"]),
+                      ("p1ExpectedChecksum", ["C04"]), ("crc16", ["C04"]), ("p1Decode", ["C11", "C15"]), ("p1Datetime", ["C11"]),
+                      ("aidonNormalize", ["C07"]), ("kamNormalize", ["C09"]), ("backoff", ["C18"]), ("getBackOffTime", ["C18", "C17"])]
+
+
+def current_fingerprints():
+    """the `…Literals` / `…Strings` lists of Generated.lean: the literals in the source of each hand-modelled function"""
+    out = {}
+    path = os.path.join(LEAN, "Amshan", "Generated.lean")
+    if os.path.exists(path):
+        for m in re.finditer(r"^def (\w+(?:Literals|Strings)) : [^=]*:= (.*)$", open(path).read(), flags=re.M):
+            out[m.group(1)] = m.group(2).strip()
+    return out
+
+
+def changed_fingerprints(pid):
+    """names of the literal lists relevant to pid that differ from the recorded ones (harness/fingerprints.json).
+    A difference means the source of a hand-modelled function was edited: not an alarm, a reason to search wider."""
+    try:
+        recorded = json.load(open(FINGERPRINT_FILE))
+    except (OSError, ValueError):
+        return []
+    cur = current_fingerprints()
+    res = []
+    for name in sorted(set(recorded) | set(cur)):
+        if recorded.get(name) != cur.get(name):
+            owners = next((o for pre, o in FINGERPRINT_OWNERS if name.startswith(pre)), [])
+            if pid in owners:
+                res.append(name)
+    return res
+
+
+# ---------------------------------------------------------------- clock injection
+class patched_clock:
+    """Make `utcnow()`/`now()` as seen BY ONE MODULE of the library return `now_fn()` (a datetime), whichever way that
+    module imported the clock (`import datetime` or `from datetime import datetime`), without touching the
+    process-wide datetime module."""
+
+    def __init__(self, module, now_fn):
+        self.module, self.now_fn = module, now_fn
+
+    def __enter__(self):
+        import datetime as _dt
+        import types
+        now_fn = self.now_fn
+
+        class _Fake(_dt.datetime):
+            @classmethod
+            def utcnow(cls):
+                return now_fn()
+
+            @classmethod
+            def now(cls, tz=None):
+                v = now_fn()
+                return v if tz is None else v.replace(tzinfo=_dt.timezone.utc).astimezone(tz)
+
+        self.old = getattr(self.module, "datetime", None)
+        if isinstance(self.old, types.ModuleType):
+            shim = types.ModuleType("datetime")
+            shim.__dict__.update(vars(self.old))
+            shim.datetime = _Fake
+            self.module.datetime = shim
+        elif self.old is not None:
+            self.module.datetime = _Fake
+        return self
+
+    def __exit__(self, *a):
+        if self.old is not None:
+            self.module.datetime = self.old
+        return False
